@@ -82,9 +82,15 @@ pub fn case(ctx: &mut Ctx, idx: u64) {
         return;
     };
     let mode = gen::pick_mode(&mut rng, &map);
-    let spec = c02::settings(&mut rng, mode);
+    let mut spec = c02::settings(&mut rng, mode);
     let mname = mode_name(mode);
     ctx.count(&format!("mode:{mname}"));
+    // a Difficulty that still carries a passed_objects value (e.g. settings reused from a failed play): the gradual
+    // calculator replaces it by its own cursor, exactly like the one-shot call with passed_objects(i) does
+    if rng.chance(0.2) {
+        spec.passed = Some(rng.below(map.hit_objects.len() as u64 + 3) as u32);
+        ctx.count("class:difficulty-carries-passed_objects");
+    }
     let d = spec.to_difficulty(mode);
 
     let mut g = match guard(|| api::gradual_perf(d.clone(), &map, mode)) {
